@@ -427,6 +427,7 @@ class Family:
         hook_gives = []
         try:
             xs = []
+            nxs, pend_names = [], {}
             main_ms = None
             hook_gives = []      # ("give", frame id, term object) and ("check",) in order
             with open(hpath) as hf:
@@ -440,6 +441,18 @@ class Family:
                                 main_ms = o.get("ms")
                             if o.get("ms") == main_ms:
                                 xs.append(o["x"])
+                                nxs.append(pend_names); pend_names = {}
+                        except Exception:
+                            pass
+                    elif line.startswith('{"e":"name"'):
+                        # names entered into the solver's table since the last insertion (they belong to the assert
+                        # command that is being read): name -> the solver's identity of the named term
+                        try:
+                            o = json.loads(line)
+                            if main_ms is None:
+                                main_ms = o.get("ms")
+                            if o.get("ms") == main_ms and o.get("ok"):
+                                pend_names[o["n"]] = o["x"]
                         except Exception:
                             pass
                     elif line.startswith('{"e":"give"') and len(hook_gives) < 400:
@@ -463,7 +476,7 @@ class Family:
             intl = self.g.num == INT
         run = {"sid": sid, "cfg": cfg, "kind": kind, "io": io, "base": base or sid, "intl": bool(intl),
                "cmds": cmds, "res": res, "text": text, "det": det, "wellformed": wellformed, "dup": dup, "hook_gives": hook_gives,
-               "xs": xs if 'xs' in dir() else []}
+               "xs": xs if 'xs' in dir() else [], "nxs": nxs if 'nxs' in dir() else []}
         self.runs.append(run)
         return run
 
@@ -547,8 +560,12 @@ class Family:
         raw_asserts = any(c2["c"] == "raw" and "(assert" in c2.get("text", "") for c2 in cmds)
         xs_run = run.get("xs") or []
         if not raw_asserts and len(acc) == len(xs_run):
-            for e, x in zip(acc, xs_run):
+            nxs_run = run.get("nxs") or []
+            for i, (e, x) in enumerate(zip(acc, xs_run)):
                 e["x"] = x
+                # identities of the named sub-terms (name hook), parallel to "inner"; -1 = not observed
+                nm2x = nxs_run[i] if i < len(nxs_run) else {}
+                e["ix"] = [nm2x.get(r["nm"], -1) for r in e.get("inner", [])]
         evs.append({"e": "Exit", "status": res["status"], "sig": res["sig"], "san": bool(res["san"]), "to": bool(res["to"]),
                     "pending": pending_check, "outh": outhash(strip_markers(res["out"])),
                     "nerr": nerr + (1 if ("syntax error" in res["out"] or "Syntax error" in res["out"]) else 0),
